@@ -58,6 +58,7 @@ pub enum K {
     BadNewtypeVariant,
     BadTupleVariant,
     BadStructVariant,
+    BadTupleStruct,
     BadNonFinite(u8),
 }
 
@@ -152,6 +153,7 @@ impl Serialize for K {
             K::BadStruct => s.serialize_struct("St", 0)?.end(),
             K::BadNewtypeVariant => s.serialize_newtype_variant("E", 1, "N", &1u8),
             K::BadTupleVariant => s.serialize_tuple_variant("E", 2, "T", 0)?.end(),
+            K::BadTupleStruct => s.serialize_tuple_struct("TS", 0)?.end(),
             K::BadStructVariant => s.serialize_struct_variant("E", 3, "S", 0)?.end(),
             K::BadNonFinite(w) => match w {
                 0 => s.serialize_f64(f64::NAN),
@@ -615,7 +617,8 @@ fn gen_int_g() -> G {
 
 fn gen_key(kn: &Knobs, depth: u32) -> K {
     if kn.bad_keys && chance(1, 6) {
-        return match draw(12) {
+        return match draw(13) {
+            12 => K::BadTupleStruct,
             0 => K::BadSeq,
             1 => K::BadMap,
             2 => K::BadUnit,
@@ -633,7 +636,8 @@ fn gen_key(kn: &Knobs, depth: u32) -> K {
     if !kn.exotic || chance(1, 2) {
         return K::Str(gen_gstr(kn, if chance(1, 3) { gen_text(kn) } else { gen::gen_key(&gen::GenCfg { max_depth: 0, max_width: 0, max_str: kn.max_str.min(40), classes: kn.classes, node_budget: 0 }) }));
     }
-    match draw(16) {
+    match draw(17) {
+        16 => K::CollectStr((0..draw(3)).map(|_| gen_text(kn)).collect()),
         0 => K::I8(-5),
         1 => K::I16(i16::MIN),
         2 => K::I32(draw(1000) as i32 - 500),
@@ -784,6 +788,22 @@ fn run_stack(stack: u32, g: &G, pretty: bool, plan: &FaultPlan, guard_fail: (Opt
                 Ok(s) => StackOutcome { name: "to_string", result: Ok(()), delivered: s.into_bytes(), fault_during_call: false, fault_reached: false, protocol_violation: None, faultable: false },
                 Err(e) => StackOutcome { name: "to_string", result: Err(e.to_string()), delivered: vec![], fault_during_call: false, fault_reached: false, protocol_violation: None, faultable: false },
             }
+        }
+        1 if draw(2) == 0 => {
+            // an explicit Serializer over an owned Vec, bytes taken back with into_inner
+            trace::bump(C::stack_vec);
+            let (r, v) = libcall("Serializer::new/pretty + into_inner", || {
+                if pretty {
+                    let mut ser = sonic_rs::Serializer::with_formatter(Vec::<u8>::new(), sonic_rs::format::PrettyFormatter::default());
+                    let r = g.serialize(&mut ser).map_err(|e| e.to_string());
+                    (r, ser.into_inner())
+                } else {
+                    let mut ser = sonic_rs::Serializer::new(Vec::<u8>::new());
+                    let r = g.serialize(&mut ser).map_err(|e| e.to_string());
+                    (r, ser.into_inner())
+                }
+            })?;
+            StackOutcome { name: "Serializer<Vec<u8>>::into_inner", result: r, delivered: v, fault_during_call: false, fault_reached: false, protocol_violation: None, faultable: false }
         }
         1 => {
             trace::bump(C::stack_vec_mut);
